@@ -172,6 +172,158 @@ func TestC09(t *testing.T) {
 		}
 		synctest.Test(t, func(t *testing.T) { c09Stale(t, run, k, run.Rand(n+1000+k)) })
 	}
+	for k := 0; k < run.N(6, 120); k++ {
+		desc := map[string]any{"idx": k, "kind": "restart-while-a-target-is-failing"}
+		if !run.Mine(n+2000+k, desc) {
+			continue
+		}
+		synctest.Test(t, func(t *testing.T) { c09Restart(t, run, k, desc) })
+	}
+}
+
+// c09Restart: "after deployment every target keeps being probed at the configured interval" - also
+// when the proxy that probes is one that read the deployment from its state file. The proxy is
+// restarted while one target (or every target) fails its probes; the failing ones recover a while
+// later. After the restart: a target whose latest probe failed gets nothing, every target is probed
+// throughout, and one that recovers is used again.
+func c09Restart(t *testing.T, run *Run, idx int, desc any) {
+	to := DefTO
+	to.HealthCheckConfig.Interval = 200 * time.Millisecond
+	to.HealthCheckConfig.Timeout = 700 * time.Millisecond
+	nt := 2 + idx%2
+	allFail := idx%3 == 2
+	failFor := 8 + idx%5 // probes (after the restart) that fail before the target recovers
+	names := []string{}
+	for i := 0; i < nt; i++ {
+		names = append(names, fmt.Sprintf("rs%d-t%d:80", idx%5, i))
+	}
+	w := NewWorld(t, WorldOpt{})
+	run.Eval()
+	for _, n := range names {
+		w.AddTarget(n, nil)
+	}
+	if c := w.Deploy("svc", names, DefSO, to, 5*time.Second, time.Second); c.Err != "" {
+		run.Inconclusive("setup failed: %s", c.Err)
+		w.Close()
+		return
+	}
+	dir := w.CopyState()
+	w.Close()
+	w = NewWorld(t, WorldOpt{StateDir: dir})
+	defer w.Close()
+	failing := map[string]bool{}
+	for i, n := range names {
+		if allFail || i == 1 {
+			failing[n] = true
+			kind := (idx + i) % 3
+			w.AddTarget(n, func(k int, at time.Duration) ProbeAct {
+				if k < failFor {
+					switch kind {
+					case 0:
+						return ProbeAct{Status: 500}
+					case 1:
+						return ProbeAct{Refuse: true}
+					}
+					return ProbeAct{Status: 200, Delay: time.Second + OffTarget} // slower than the timeout
+				}
+				return ProbeAct{Status: 200}
+			})
+		} else {
+			w.AddTarget(n, nil)
+		}
+	}
+	t0 := w.Now()
+	if err := w.Router.RestoreLastSavedState(); err != nil {
+		run.Violate("restore-failed", fmt.Sprintf("RestoreLastSavedState: %v", err), desc, nil)
+		return
+	}
+	horizon := 12 * time.Second
+	for k := 0; time.Duration(k)*50*time.Millisecond < horizon; k++ {
+		w.GoReq(t0+time.Second+time.Duration(k)*50*time.Millisecond+OffArrival, Req{ID: fmt.Sprintf("rs%d", k), Host: "c09.example", Path: "/s"})
+	}
+	w.Wait()
+	tEnd := t0 + time.Second + horizon
+	logs := map[string][]ProbeRec{}
+	for _, n := range names {
+		logs[n] = w.Target(n).ProbeLog()
+		// probed throughout: no gap of more than interval + timeout + slack between probe starts
+		last := t0
+		for _, p := range logs[n] {
+			if p.Start-last > 3*to.HealthCheckConfig.Interval+to.HealthCheckConfig.Timeout {
+				break
+			}
+			last = p.Start
+		}
+		if tEnd-last > 3*to.HealthCheckConfig.Interval+to.HealthCheckConfig.Timeout {
+			run.Violate("not-probed-after-restart", fmt.Sprintf("target %s was last probed at %v (restart at %v, %d probes in all); requests were served until %v with a probe interval of %v", n, last, t0, len(logs[n]), tEnd, to.HealthCheckConfig.Interval), desc, func() []string { return w.Trace(120) })
+			return
+		}
+	}
+	verdict := func(n string, at time.Duration) (known, healthy, tie bool) {
+		var latest *ProbeRec
+		pl := logs[n]
+		for i := range pl {
+			p := &pl[i]
+			if !p.Ended && p.Start+to.HealthCheckConfig.Timeout > at {
+				continue
+			}
+			end := p.End
+			if !p.Ended || p.End-p.Start > to.HealthCheckConfig.Timeout {
+				end = p.Start + to.HealthCheckConfig.Timeout
+			}
+			if absDur(end-at) < 5*time.Millisecond {
+				tie = true
+			}
+			if end < at && (latest == nil || p.Start > latest.Start) {
+				latest = p
+			}
+		}
+		if latest == nil {
+			return false, false, tie
+		}
+		return true, latest.Passed(to.HealthCheckConfig.Timeout), tie
+	}
+	usedAfterRecovery := map[string]bool{}
+	for _, r := range w.RespLog() {
+		anyTie, nHealthy, nKnown := false, 0, 0
+		for _, n := range names {
+			k, h, tie := verdict(n, r.Sent)
+			anyTie = anyTie || tie
+			if k {
+				nKnown++
+			}
+			if k && h {
+				nHealthy++
+			}
+		}
+		if anyTie || nKnown < len(names) {
+			continue
+		}
+		if r.Status == 200 && r.Target != "" {
+			if _, h, _ := verdict(r.Target, r.Sent); !h {
+				run.Violate("sent-to-unhealthy-target:after-restart", fmt.Sprintf("request %s at %v (restart at %v) was forwarded to %s, whose latest probe had failed", r.ID, r.Sent, t0, r.Target), desc, func() []string { return w.Trace(120) })
+				return
+			}
+			if failing[r.Target] {
+				usedAfterRecovery[r.Target] = true
+			}
+		}
+		if nHealthy > 0 && r.Status != 200 {
+			run.Violate(fmt.Sprintf("status-%d-with-healthy-targets:after-restart", r.Status), fmt.Sprintf("request %s at %v got %d although %d targets had a successful latest probe", r.ID, r.Sent, r.Status, nHealthy), desc, func() []string { return w.Trace(120) })
+			return
+		}
+		if nHealthy == 0 && r.Status != 503 {
+			run.Violate(fmt.Sprintf("no-healthy-target-but-status-%d:after-restart", r.Status), fmt.Sprintf("request %s at %v got status %d (target %q) although the latest probe of every target had failed", r.ID, r.Sent, r.Status, r.Target), desc, func() []string { return w.Trace(120) })
+			return
+		}
+	}
+	for n := range failing {
+		if !usedAfterRecovery[n] {
+			run.Violate("recovered-target-not-used:after-restart", fmt.Sprintf("target %s failed its first %d probes after the restart and passed every later one, but never received a request again in %v", n, failFor, horizon), desc, func() []string { return w.Trace(120) })
+			return
+		}
+	}
+	run.Class(fmt.Sprintf("restart|targets=%d|all-failing=%v|fail-for=%d", nt, allFail, failFor))
 }
 
 // c09Lag: the probe timeout is longer than the probe interval (as with the defaults, 5s and 1s), and
